@@ -880,6 +880,9 @@ func engineLevel(enc *json.Encoder, tmp string, rng *rand.Rand, ngroups int) {
 		}
 		emit(first, L, reports)
 		for _, v := range versions[1:] {
+			if L == 1000 {
+				break // the later versions are analysed under TruncateLen 0 and 20 only
+			}
 			if err := os.WriteFile(v.t.Path, v.src, 0o644); err != nil {
 				fmt.Fprintln(os.Stderr, "target:", err)
 				os.Exit(3)
